@@ -113,6 +113,12 @@ func (t *WeightedMerkleTrie) insert(node Node, prefix, key []byte, value Node) (
 			v.dirty = true
 			return change, v, nil
 		}
+		switch node.(type) {
+		case *routingNode, *shortNode:
+			// the key ends at a branch or short node below the full key depth (only in a trie imported from a
+			// crafted export): replacing it by the value would drop its entries and corrupt the weights above
+			return 0, nil, ErrInvalidKey
+		}
 		return int64(value.Weight()), value, nil
 	}
 
@@ -136,6 +142,11 @@ func (t *WeightedMerkleTrie) insert(node Node, prefix, key []byte, value Node) (
 			}
 			n.value = newNode
 			return change, n, nil
+		}
+		if prefixLen == len(key) {
+			// the key ends inside this node's key: the node reaches below the full key depth (only in a
+			// trie imported from a crafted export)
+			return 0, nil, ErrInvalidKey
 		}
 		t.pendingDeleted = append(t.pendingDeleted, n.Hash())
 		branch := &routingNode{dirty: true, weight: n.Weight() + value.Weight()}
